@@ -71,8 +71,25 @@ def stepSingle (arena : Bool) (s : State) (w : List String) : Option (State × B
     | some k, some v => ok (step s (.ready k v))
     | _, _ => none
   | ["poll", j] => j.toNat?.bind fun j => ok (step s (.poll j))
-  | ["idle"] => ok (runIdle (s.tasks.length + 1) s)
+  -- (observers may add tasks while the queue is drained: at most their budgets)
+  | ["idle"] => ok (runIdle (s.tasks.length + s.hookVersion.budget + s.hookValue.budget + 1) s)
   | ["clear"] => ok (step s .clear)
+  -- the executor polls a task inline when it is spawned
+  | ["eager", b] => (parseB b).bind fun b => ok (step s (.eager b))
+  -- dispatch with a future that is already resolved
+  | ["dispatchr", i, v] =>
+    match i.toNat?, v.toNat? with
+    | some i, some v => some (step s (.dispatchReady i v), s.disposed)
+    | _, _ => none
+  -- an `ImmediateEffect` on `version()` / `value()` that dispatches `i` again, `b` times
+  | ["hook", "version", b, i] =>
+    match b.toNat?, i.toNat? with
+    | some b, some i => ok (step s (.hook .version b i))
+    | _, _ => none
+  | ["hook", "value", b, i] =>
+    match b.toNat?, i.toNat? with
+    | some b, some i => ok (step s (.hook .value b i))
+    | _, _ => none
   | ["suppress", b] => (parseB b).bind fun b => ok (step s (.suppress b))
   -- explicit `Dispose::dispose` of the handle: arena kinds only
   | ["dispose"] => if arena then ok (step s .dispose) else none
@@ -92,6 +109,11 @@ def stepMulti (arena : Bool) (s : M.State) (w : List String) : Option M.State :=
     | _, _ => none
   | ["poll", j] => j.toNat?.map fun j => M.step s (.poll j)
   | ["idle"] => some (M.runIdle (s.tasks.length + 1) s)
+  | ["eager", b] => (parseB b).map fun b => M.step s (.eager b)
+  | ["dispatchr", i, v] =>
+    match i.toNat?, v.toNat? with
+    | some i, some v => some (M.step s (.dispatchReady i v))
+    | _, _ => none
   | ["suppress", b] => (parseB b).map fun b => M.step s (.suppress b)
   | ["dispose"] => if arena then some (M.step s .dispose) else none
   | ["cleanup"] => if arena then some (M.step s .dispose) else some s
